@@ -4,7 +4,9 @@ patch="$1"; prop="$2"; tier="${3:-quick}"
 cd /repo || exit 2
 if ! git diff --quiet; then echo "repo not clean"; exit 2; fi
 git apply "$patch" || { echo "patch does not apply"; exit 2; }
+cp /verif/evidence/$prop.json /tmp/seedtest.$$.ev 2>/dev/null
 cd /verif && ./check "$prop" "$tier" > /tmp/seedtest.$$.out 2>&1; rc=$?
+[ -f /tmp/seedtest.$$.ev ] && mv /tmp/seedtest.$$.ev /verif/evidence/$prop.json
 cd /repo && git checkout -- . 
 grep -E "^VIOLATION|^KNOWN|seed=" /tmp/seedtest.$$.out | head -4
 echo "exit=$rc"
